@@ -1929,8 +1929,9 @@ def coq_terms(c, r):
             sr = "search_raised" in b
             out.append("CReload %s %s %s" % (search_term(S["search"]), cbool(sr), "ONone" if sr else obj_term(b["abs_search"])))
         if c["b"].get("build", {}).get("route") in ("files", "fit") and "raised" not in b and b.get("abs_model") \
-                and "dropping_instance" not in features(c["b"]):
-            S = c["b"]
+                and "dropping_instance" not in features(c["b"]) and "derived_tuple_order" not in c.get("labels", []):
+            # (the files of a fit of a DERIVED model are read back to the shape of the equal model composed by hand)
+            S = c["a"] if c["b"]["build"].get("derive") else c["b"]
             out.append("CReload %s false %s" % (node_term(S["model"], S["pool"]), obj_term(b["abs_model"])))
     if k == "walk":
         fl = abs_floats(r["abs"], set())
